@@ -231,7 +231,7 @@ public:
                     a.t.Skip(k);
                     m.advance(k);
                     if (m.can_move() || k <= 70000)
-                        out.sim_cycles += std::min<u64>(k, 1ull << 32);
+                        out.sim_cycles += std::min<u64>(k, 70000);
                     if (m.irqs != irq_before) {
                         // cannot happen if the horizon check above passed; defensive
                         out.violate("C15.horizon-too-far", fmt("step %zu: model fired inside skip of %llu", si,
